@@ -196,16 +196,16 @@ theorem verify_true_only_if (cv : Nat) (addrText : List Char) (magic msg sig : B
       | some pk =>
         refine ⟨digest, pk, rfl, hr, ?_⟩
         simp only [hd, hr, bind, Except.bind] at h
-        cases hdec : Secp256k1.decode pk with
-        | none => simp [hdec, throw, throwThe, MonadExceptOf.throw] at h
-        | some P =>
-          simp [hdec, pure, Except.pure] at h
+        by_cases hv : Model.Keys.isFullyValid pk = true
+        · simp [hv, pure, Except.pure] at h
           exact h.symm
+        · simp [hv, throw, throwThe, MonadExceptOf.throw] at h
 
-/-- … and conversely it answers true for that text whenever the key decodes (no further condition) -/
-theorem verify_true_if (cv : Nat) (magic msg sig digest pk : Bytes) (P : Secp256k1.Point)
+/-- … and conversely it answers true for that text whenever the recovered key is "fully valid" in the
+    library's sense (no further condition) -/
+theorem verify_true_if (cv : Nat) (magic msg sig digest pk : Bytes)
     (hd : Model.Keys.msgDigest magic msg = .ok digest)
-    (hr : Model.Keys.recoverCompact digest sig = .ok (some pk)) (hdec : Secp256k1.decode pk = some P) :
+    (hr : Model.Keys.recoverCompact digest sig = .ok (some pk)) (hdec : Model.Keys.isFullyValid pk = true) :
     Model.Keys.verifyMessage cv (Model.Keys.p2pkhText cv pk) magic msg sig = .ok true := by
   unfold Model.Keys.verifyMessage
   simp [hd, hr, hdec, bind, Except.bind, pure, Except.pure]
@@ -213,14 +213,25 @@ theorem verify_true_if (cv : Nat) (magic msg sig digest pk : Bytes) (P : Secp256
 /-- `verify_false_other`: for ANY address whose text differs from the text of the recovered key's P2PKH
     address — another key's address, the P2SH or segwit address carrying the same hash160, an address
     of another chain, anything else with a `__str__` — the answer is false, not an exception -/
-theorem verify_false_other (cv : Nat) (addrText : List Char) (magic msg sig digest pk : Bytes) (P : Secp256k1.Point)
+theorem verify_false_other (cv : Nat) (addrText : List Char) (magic msg sig digest pk : Bytes)
     (hd : Model.Keys.msgDigest magic msg = .ok digest)
-    (hr : Model.Keys.recoverCompact digest sig = .ok (some pk)) (hdec : Secp256k1.decode pk = some P)
+    (hr : Model.Keys.recoverCompact digest sig = .ok (some pk)) (hdec : Model.Keys.isFullyValid pk = true)
     (hne : addrText ≠ Model.Keys.p2pkhText cv pk) :
     Model.Keys.verifyMessage cv addrText magic msg sig = .ok false := by
   unfold Model.Keys.verifyMessage
   simp [hd, hr, hdec, bind, Except.bind, pure, Except.pure]
   exact fun h => hne h.symm
+
+/-- **Observation O15 (outside the property: not a signature produced by message signing).**  If
+    recovery yields the point at infinity — serialised `00` — `VerifyMessage` does not fail: the library
+    regards `00` as a fully valid key, so it answers TRUE for the P2PKH address of Hash160(`00`), for
+    whatever message the digest came from.  (Bitcoin Core rejects an invalid recovered key.)  That such
+    signatures exist for EVERY digest is `o15_recovery_gives_infinity` below. -/
+theorem o15_verify_accepts_infinity_key (cv : Nat) (magic msg sig digest : Bytes)
+    (hd : Model.Keys.msgDigest magic msg = .ok digest)
+    (hr : Model.Keys.recoverCompact digest sig = .ok (some [0])) :
+    Model.Keys.verifyMessage cv (Model.Keys.p2pkhText cv [0]) magic msg sig = .ok true :=
+  verify_true_if cv magic msg sig digest [0] hd hr (by decide)
 
 /-- Base58Check text (with the real checksum hash) determines version byte and payload -/
 theorem base58_text_injective (v v' : UInt8) (p p' : Bytes)
@@ -235,20 +246,20 @@ theorem base58_text_injective (v v' : UInt8) (p p' : Bytes)
 
 /-- for a Base58 address (P2PKH or P2SH of any chain) the decision is: same version byte as the selected
     chain's PUBKEY_ADDR and payload = Hash160 of the recovered key -/
-theorem verify_base58_address (cv : Nat) (av : UInt8) (payload magic msg sig digest pk : Bytes) (P : Secp256k1.Point)
+theorem verify_base58_address (cv : Nat) (av : UInt8) (payload magic msg sig digest pk : Bytes)
     (hd : Model.Keys.msgDigest magic msg = .ok digest)
-    (hr : Model.Keys.recoverCompact digest sig = .ok (some pk)) (hdec : Secp256k1.decode pk = some P) :
+    (hr : Model.Keys.recoverCompact digest sig = .ok (some pk)) (hdec : Model.Keys.isFullyValid pk = true) :
     Model.Keys.verifyMessage cv (Model.Base58.str hash256 ⟨av, payload⟩) magic msg sig =
       .ok (decide (av = UInt8.ofNat cv ∧ payload = hash160 pk)) := by
   by_cases h : av = UInt8.ofNat cv ∧ payload = hash160 pk
   · obtain ⟨h1, h2⟩ := h
     subst h1; subst h2
-    have := verify_true_if cv magic msg sig digest pk P hd hr hdec
+    have := verify_true_if cv magic msg sig digest pk hd hr hdec
     simpa [Model.Keys.p2pkhText, Model.Keys.p2pkhPayload] using this
   · have hne : Model.Base58.str hash256 ⟨av, payload⟩ ≠ Model.Keys.p2pkhText cv pk := by
       intro he
       exact h (base58_text_injective _ _ _ _ he)
-    rw [verify_false_other cv _ magic msg sig digest pk P hd hr hdec hne]
+    rw [verify_false_other cv _ magic msg sig digest pk hd hr hdec hne]
     simp [h]
 
 -- UNPROVED (full statement): on the property's domain the python recovery code, read with the reference
@@ -299,9 +310,40 @@ theorem verify_other_message (C : Ecdsa.Params q E) (R : E) (e e' r s : ZMod q) 
     (hne : e ≠ e') : Ecdsa.recoverPoint C R e r s ≠ Ecdsa.recoverPoint C R e' r s :=
   fun h => hne (Ecdsa.recoverPoint_injective_digest C R e e' r s hg hr h)
 
+/-- O15, the algebra: with `R = G` (so r = f(G), the x-coordinate of the generator) and `s = e`, the
+    recovery formula gives the neutral element for EVERY digest `e` — the forged compact signature
+    `1b ‖ x(G) ‖ (e mod n)` needs no secret -/
+theorem o15_recovery_gives_infinity (C : Ecdsa.Params q E) (e r : ZMod q) :
+    Ecdsa.recoverPoint C C.g e r e = 0 := by
+  unfold Ecdsa.recoverPoint
+  rw [← add_smul]
+  have : -e * r⁻¹ + e * r⁻¹ = 0 := by ring
+  rw [this, zero_smul]
+
 end abstract
 
 /-! ### non-vacuity -/
+
+/-- a genuine signature: secret 1, digest 00…07, nonce 2 (reference signing equation, low S, recid 0) -/
+def exR : Nat := 89565891926547004231252920425935692360644145829622209833684329913297188986597
+def exS : Nat := 44782945963273502115626460212967846180322072914811104916842164956648594493302
+def exDigest : Bytes := List.replicate 31 0 ++ [7]
+def exSig : Bytes := 31 :: (Secp256k1.be32 exR ++ Secp256k1.be32 exS)
+
+/-- hypotheses of `signCompact_layout` are met: the padding / recid search returns (r ‖ s, 0) -/
+example : Model.Keys.signCompactFinish exDigest (Secp256k1.derEncode exR exS) (Secp256k1.pubkeyOf 1 true) =
+    .ok (Secp256k1.be32 exR ++ Secp256k1.be32 exS, 0) := by decide +kernel
+
+/-- hypotheses of `verify_true_if` / `verify_base58_address` are met: the model of `recover_compact`
+    returns the signer's compressed key, which is fully valid -/
+example : Model.Keys.recoverCompact exDigest exSig = .ok (some (Secp256k1.pubkeyOf 1 true)) ∧
+    Model.Keys.isFullyValid (Secp256k1.pubkeyOf 1 true) = true := by decide +kernel
+
+/-- O15, a concrete instance in the model: for the digest 00…07 the forged signature `1b ‖ x(G) ‖ 00…07`
+    (no secret involved) makes `recover_compact` return the infinity key `00`, which
+    `o15_verify_accepts_infinity_key` turns into a successful `VerifyMessage` -/
+example : Model.Keys.recoverCompact exDigest (27 :: (Secp256k1.be32 Secp256k1.Gx ++ Secp256k1.be32 7)) =
+    .ok (some [0]) := by decide +kernel
 
 example : Model.Keys.headerDecode 31 = (0, true) := by decide
 example : Model.Keys.headerDecode 30 = (3, false) := by decide
